@@ -452,7 +452,7 @@ func recvNamed(t types.Type) *types.Named {
 func CheckC12(c *Ctx) {
 	run := c.Run
 	run.Technique = "typed-AST structure lints on the worker closure of asset.Sync.Run (start-date rule, fault isolation, error reporting, WaitGroup domination, single job channel) + SSA shared-write analysis rooted at the go statement started in a loop + lock-consistency lint on InMemoryRepository"
-	run.Explanation = "The resulting repository contents and idempotence depend on repository semantics and are NOT decided. Decided structurally on the worker closure of Sync.Run: the start date is LastDate+1 day when the target has the asset and the default start date otherwise, and that value is what is passed to source.GetSince, whose result is what is appended to the target; every error branch inside the per-asset loop records the failure and continues with the next asset (no return/break: one failing asset does not stop the others), and Run returns a non-nil error iff a failure was recorded; wg.Wait() precedes the final return; all assets flow through one channel consumed by all workers. The SSA shared-write analysis shows that no worker writes memory shared with the other workers without synchronisation (the failure flag; the target repository through the Repository interface, resolved by CHA), and every method of InMemoryRepository touches its map under the mutex."
+	run.Explanation = "The resulting repository contents and idempotence depend on repository semantics and are NOT decided. Decided structurally on the worker closure of Sync.Run: the start date is LastDate+1 day when the target has the asset and the default start date otherwise, and that value is what is passed to source.GetSince, whose result is what is appended to the target; every error branch inside the per-asset loop records the failure and continues with the next asset (no return/break: one failing asset does not stop the others), and Run returns a non-nil error iff a failure was recorded; wg.Wait() precedes the final return; all assets flow through one channel consumed by all workers. The SSA shared-write analysis shows that no worker writes memory shared with the other workers without synchronisation (the failure flag; the target repository through the Repository interface, resolved by CHA), and every method of InMemoryRepository touches its map under the mutex. The last date asked for is the target's for the asset in hand, the default asset list (used only when none are configured) is the target's, the job channel is made from the unsliced list, and the loop that starts the workers runs at least once for every Workers >= 1."
 	run.Trusted = []string{"go/types", "go/ssa + CHA (x/tools v0.29.0)", "sync/atomic and sync.Mutex semantics"}
 	c.syncCommandWiring()
 	c.workersPositive("cmd/indicator-sync", "sync/command")
@@ -947,7 +947,7 @@ func isParamOf(fi *load.FuncInfo, v *types.Var) bool {
 func CheckC13(c *Ctx) {
 	run := c.Run
 	run.Technique = "typed-AST protocol/typestate lints on Backtest.Run and Backtest.worker (Begin → per asset: AssetBegin → one Write per strategy → AssetEnd → End after Wait) + SSA shared-write analysis rooted at `go b.worker` + lock-consistency lints on both report implementations + comparator totality lint"
-	run.Explanation = "Equality of the reported numbers with a direct evaluation is NOT decided. Decided structurally: Begin is called before any worker starts and End after wg.Wait(); in the worker, for every asset, AssetBegin precedes the strategy loop and AssetEnd follows it; each iteration of the strategy loop calls report.Write exactly once, with the outputs of strategy.ComputeWithOutcome for that strategy on a fresh SliceToChan of that asset's snapshots (no iteration can skip it), and ComputeWithOutcome hands back the strategy's own action stream, untransformed, with Outcome(closings of the same snapshots, those actions); all assets flow through one channel shared by the workers, and the loop over that channel is left only when it is exhausted (no return, break, goto, panic or process exit in its body: an asset that cannot be loaded is skipped, it does not stop the worker). The SSA shared-write analysis shows that nothing reachable from `go b.worker` (including both bundled Report implementations, resolved through the interface by CHA) writes shared memory without holding a mutex, and in both report types every access to the shared maps/slices happens under the mutex. Functions passed to slices.SortFunc / sort.Slice must be total orders on the compared field: no conversion of a floating-point difference to int (results closer than 1 would compare equal, so the entry presented as best need not be maximal). No run crashes: every slice index in package backtest is the key of a range over that slice, a constant below the constant element count of helper.Duplicate, or protected by a length check; the rule is exercised on a built-in positive example on every run."
+	run.Explanation = "Equality of the reported numbers with a direct evaluation is NOT decided. Decided structurally: Begin is called before any worker starts and End after wg.Wait(); in the worker, for every asset, AssetBegin precedes the strategy loop and AssetEnd follows it; each iteration of the strategy loop calls report.Write exactly once, with the outputs of strategy.ComputeWithOutcome for that strategy on a fresh SliceToChan of that asset's snapshots (no iteration can skip it), and ComputeWithOutcome hands back the strategy's own action stream, untransformed, with Outcome(closings of the same snapshots, those actions); all assets flow through one channel shared by the workers, and the loop over that channel is left only when it is exhausted (no return, break, goto, panic or process exit in its body: an asset that cannot be loaded is skipped, it does not stop the worker). The SSA shared-write analysis shows that nothing reachable from `go b.worker` (including both bundled Report implementations, resolved through the interface by CHA) writes shared memory without holding a mutex, and in both report types every access to the shared maps/slices happens under the mutex. Functions passed to slices.SortFunc / sort.Slice must be total orders on the compared field: no conversion of a floating-point difference to int (results closer than 1 would compare equal, so the entry presented as best need not be maximal). No run crashes: every slice index in package backtest is the key of a range over that slice, a constant below the constant element count of helper.Duplicate, or protected by a length check; the rule is exercised on a built-in positive example on every run. Further: the worker hands Write the two results of one ComputeWithOutcome call as they are, for the strategy written, on two different branches of one Duplicate (for exactly two consumers) of a fresh SliceToChan; the snapshots come from LastDays days before now; nothing leaves the iteration between AssetBegin and AssetEnd; defaults replace the configured names/strategies only when none were configured; the workers' loop runs at least once for Workers >= 1; every field of the result both reports record is the specified SSA term over Write's parameters (last outcome, times 100 in the HTML report; last action; transactions over all actions); ordering functions put the larger outcome first on all three orderings and the entry picked after a sort is the first; what a report appends to starts empty in Begin/AssetBegin; length guards before constant indices are decided, also when they stand in the callers of a helper."
 	run.Trusted = []string{"go/types", "go/ssa + CHA", "sync.Mutex semantics"}
 	runFi := c.fn("backtest", "Backtest", "Run")
 	// what a worker writes is what ComputeWithOutcome hands back: the strategy's own actions and
@@ -1257,6 +1257,8 @@ func CheckC13(c *Ctx) {
 		c.violate("backtest/write-once", site+".worker", fmt.Sprintf("writes=%d", writes), stratLoop.Pos(), "every (asset, strategy) pair must be written exactly once with the outputs of ComputeWithOutcome of that strategy on a fresh copy of the asset's snapshots")
 	}
 	c.errorOrientation("backtest/error-orientation", "backtest")
+	c.lockPairing("backtest/lock", "backtest")
+	run.Floor("lock_sites", 5)
 	c.workerLoop("backtest/jobs", site+".Run", info, runFi.Decl)
 	c.defaultWhenEmpty("backtest/protocol", site+".Run", info, runFi.Decl, "Strategies")
 	c.defaultWhenEmpty("backtest/protocol", site+".Run", info, runFi.Decl, "Names")
@@ -2688,6 +2690,41 @@ func (c *Ctx) workerLoop(rule, site string, info *types.Info, fd *ast.FuncDecl) 
 	})
 	run.Count("worker_loops", n)
 	run.Floor("worker_loops", 1)
+	// the wait group: one Add per worker started, Done on every way out of the worker
+	isWG := func(m ast.Node, method string) bool {
+		call, ok := m.(*ast.CallExpr)
+		return ok && calleeName(info, call) == "sync.(WaitGroup)."+method
+	}
+	workers := goLitsOf(fd)
+	run.Count("worker_bodies", len(workers))
+	for _, w := range workers {
+		bad := exitsWithout(w.Body, nil, func(m ast.Node) bool { return isWG(m, "Done") }, nil)
+		run.Oblige(len(bad) == 0)
+		if len(bad) > 0 {
+			c.violate(rule, site, "wg.Done", bad[0], "a worker can end here without having called (or deferred) wg.Done(): the Wait() of the run never returns")
+		}
+	}
+	adds, gos := 0, 0
+	ast.Inspect(fd.Body, func(nd ast.Node) bool {
+		switch x := nd.(type) {
+		case *ast.FuncLit:
+			return false
+		case *ast.GoStmt:
+			gos++
+			return false
+		case *ast.CallExpr:
+			if isWG(x, "Add") {
+				if v, isC := constInt(info, x.Args[0]); isC && v == 1 {
+					adds++
+				}
+			}
+		}
+		return true
+	})
+	run.Oblige(adds == gos && gos > 0)
+	if adds != gos || gos == 0 {
+		c.violate(rule, site, "wg.Add", fd.Pos(), fmt.Sprintf("%d worker start(s) but %d wg.Add(1): the run waits for too few or too many workers", gos, adds))
+	}
 }
 
 func exprString2(s ast.Stmt) string {
